@@ -90,6 +90,20 @@ def fam_c07(tier, seed):
     if tier == "quick":
         must = [p for p in plans if p[0] == ("recv", "timed1") and len(p[1]) == 1]
         plans = must + _sample(rng, plans, 260)
+    # unblock() while nobody is blocked, then requests that only polling / timed receivers will take
+    extra = []
+    for combo in (("trypoll",), ("trypoll", "trypoll"), ("timedloop",), ("trypoll", "timedloop")):
+        for ut in (0, 2 * MS):
+            for pts in ([5 * MS], [5 * MS, 6 * MS], [3 * MS, 12 * MS]):
+                extra.append((combo, ut, pts))
+    recvs["trypoll"] = lambda: R_try_loop(3 * T)
+    for combo, ut, pts in extra:
+        apps = [recvs[r]() for r in combo] + [unblocker(ut, 1)]
+        cc = [simple_conn(c, 1, at_ns=t) for c, t in enumerate(pts)]
+        sc = scenario("C07-u%03d" % k, "C07", cc, apps, horizon_ms=4 * T + 20, single=False)
+        sc["tags"] = ["queue", "unblock-with-pollers", "recv:" + "+".join(combo)]
+        scs.append(sc)
+        k += 1
     for combo, conns in plans:
         apps = [recvs[r]() for r in combo]
         cc = [simple_conn(c, nreq, at_ns=off, gap_ns=rng.choice([0, 0, 400_000])) for c, (off, nreq) in enumerate(conns)]
@@ -228,8 +242,31 @@ def fam_c20(tier, seed):
         end_ms = (t // MS) + 50
         probes = [1 * MS] + [(2 + 6000 * i + 5500) * MS for i in range(len(bl))]
         sc = scenario("C20-%04d" % k, "C20", cc, [R_recv(), R_recv()], horizon_ms=end_ms, single=False,
-                      reclaim=list(range(2, 2 + len(bl))), probes_ns=probes)
+                      reclaim=[[i, 0] for i in range(2, 2 + len(bl))], probes_ns=probes)
         sc["tags"] = ["pool", "reclaim", "bursts:" + "+".join(map(str, bl))]
+        scs.append(sc)
+        k += 1
+    # (a2) a burst, then a trickle of single connections less than an idle period apart: the surplus
+    #      workers of the burst must still go away (only workers that actually served recently may stay)
+    for burst, gap_ms, ntr in ((12, 2000, 6), (8, 3000, 4), (20, 1000, 9)):
+        cc = []
+        c = 0
+        for _ in range(burst):
+            d, j, ln = simple_conn(c, 1)
+            d["prog"] = [{"op": "sleep", "ns": 2 * MS}, {"op": "send", "to": ln}, {"op": "sleep", "ns": 10 * MS}, {"op": "half"}]
+            cc.append((d, j, ln))
+            c += 1
+        for i in range(ntr):
+            d, j, ln = simple_conn(c, 1)
+            d["prog"] = [{"op": "sleep", "ns": (500 + gap_ms * (i + 1)) * MS}, {"op": "send", "to": ln}, {"op": "sleep", "ns": 5 * MS}, {"op": "half"}]
+            cc.append((d, j, ln))
+            c += 1
+        end_ms = 500 + gap_ms * ntr + 100
+        # connections dispatched within one idle period before the probe may each have kept one worker busy
+        slack = 5000 // gap_ms + 1
+        sc = scenario("C20-%04d" % k, "C20", cc, [R_recv(), R_recv()], horizon_ms=end_ms, single=False,
+                      reclaim=[[2, slack]], probes_ns=[1 * MS, end_ms * MS])
+        sc["tags"] = ["pool", "reclaim", "trickle", "burst:%d" % burst]
         scs.append(sc)
         k += 1
     # (b) drop while requests are held: they are still answered; new connections are refused
@@ -283,6 +320,7 @@ def _answer_plans(kind):
         "w2f": lambda: writer([700, 900], flush="each"),
         "w2n": lambda: writer([5, 2000], flush="never"),
         "w3l": lambda: writer([1200, 1, 300], flush="last"),
+        "wf1": lambda: {"ans": {"how": "writer", "status": 200, "parts": [30], "flush": "last", "flush_first": True}},
         "drop": lambda: drop(),
         "panic": lambda: panic(),
     }
@@ -300,7 +338,7 @@ def fam_c01(tier, seed, prop="C01"):
     prods = _sample(rng, prods, 220 if tier == "quick" else 900)
     if True:
         # the shapes behind F1 are always present
-        prods += [("r5", "w0", "r5"), ("r1025", "w0", "w2n"), ("w0", "r5"), ("r5", "w0")]
+        prods += [("r5", "w0", "r5"), ("r1025", "w0", "w2n"), ("w0", "r5"), ("r5", "w0"), ("r5", "wf1"), ("r1025", "wf1", "r5"), ("w2f", "wf1")]
     for combo in prods:
         for mode in ("spawn", "inline"):
             delays = [0] * len(combo)
@@ -395,6 +433,7 @@ def fam_c09(tier, seed):
         prefixes = sorted(set([0, 1, n // 2, max(n - 1, 0), n]))
         cons = [("upto%d" % p, dict(upto=p, sizes=[512])) for p in prefixes if p > 0 or True]
         cons.append(("eof", dict(sizes=[300], to_eof=True)))
+        cons.append(("zero", dict(sizes=[0])))          # a single zero-length read, then the request is finished
         for (ctag, ckw), fin, fol in itertools.product(cons, sorted(finishes), sorted(followers)):
             if tier == "quick" and rng.random() > 0.35:
                 continue
@@ -402,6 +441,8 @@ def fam_c09(tier, seed):
             d, j, ln = conn([first] + followers[fol](), 0)
             sc = scenario("C09-%04d" % k, "C09", [(d, j, ln)], _single_app(), horizon_ms=100)
             sc["tags"] = ["boundary", tag, ctag, fin, "follower:" + fol]
+            if ctag == "zero":
+                sc["tags"].append("zero-length-read")
             if kw["framing"] == "chunked" and ctag != "eof":
                 sc["tags"].append("chunked-body-not-read-to-eof")
             scs.append(sc)
@@ -457,6 +498,7 @@ def fam_c11(tier, seed):
     k = 0
     kinds = {
         "none": lambda: Msg(),
+        "b0": lambda: Msg(method="POST", framing="cl", body_len=0),
         "b1": lambda: Msg(method="POST", framing="cl", body_len=1),
         "b1024": lambda: Msg(method="POST", framing="cl", body_len=1024),
         "b1025": lambda: Msg(method="POST", framing="cl", body_len=1025, plan=_with_read(respond(200, 3), sizes=[4096], to_eof=True)),
@@ -469,13 +511,14 @@ def fam_c11(tier, seed):
     combos = _sample(rng, combos, 70 if tier == "quick" else 500)
     combos += [tuple(["none"] * 8), ("b1024",) * 6, ("none", "b1", "b1024", "none", "b1", "b1024", "none", "b1")]
     combos += [("b1025", "none"), ("chunked", "none"), ("none", "b1025", "none"), ("b1024", "none"), ("b1025", "b1025", "none")]
+    combos += [("b0", "none"), ("none", "b0", "none"), ("b0", "b0", "b1"), ("b0",) * 5]
     for combo in combos:
-        small_only = all(c in ("none", "b1", "b1024") for c in combo)
+        small_only = all(c in ("none", "b0", "b1", "b1024") for c in combo)
         progs = []
         # (a) collect everything that can be read ahead, then answer in order
         nsmall = 0
         for c in combo:
-            if c in ("none", "b1", "b1024"):
+            if c in ("none", "b0", "b1", "b1024"):
                 nsmall += 1
             else:
                 nsmall += 1
